@@ -50,6 +50,16 @@ refactor("c08-tiers-without-macro",
               "pub ExprPrecedence3: RawExpr = {\n    <l_loc:@L> <l:ExprPrecedence3> <op_loc:@L> <op:ExprOp3> <r_loc:@L> <r:ExprPrecedence4> =>\n        RawExpr::BinaryOp{op, op_loc, lhs: Box::new((l, l_loc)), rhs: Box::new((r, r_loc))},\n    ExprPrecedence4\n};")],
          note="additive tier written out without the ExprTier macro")
 
+mutant("c02-unguarded-drain-in-range-read",
+       [(E, "    if let Some(vs) = s.get(*start .. *end) {\n        return Ok(value::new_str(vs.to_vec()));\n    }",
+            "    if *end <= s.len() {\n        let mut t = s.clone();\n        t.truncate(*end);\n        t.drain(..*start);\n        return Ok(value::new_str(t));\n    }")],
+       [("C11", "R11.2")], also=[("C02", "R02.4")], note="range read by truncate+drain without start<=end")
+
+mutant("c02-unguarded-split-off",
+       [(E, "    if let Some(vs) = s.get(*start .. *end) {\n        return Ok(value::new_str(vs.to_vec()));\n    }",
+            "    let mut t = s.clone();\n    let _tail = t.split_off(*end);\n    if let Some(vs) = s.get(*start .. *end) {\n        return Ok(value::new_str(vs.to_vec()));\n    }")],
+       [("C02", "R02.4")], note="panicking split_off before the bounds lookup")
+
 # ---- C09 ---------------------------------------------------------------------
 mutant("c09-drop-mod-from-continuations",
        [(L, "                    Token::Mod |\n", "")],
